@@ -163,7 +163,7 @@ private theorem rcount_set_false {l : List Bool} {r : Nat} (hr : l.getD r false 
     have hpos : 0 < l.count true := List.count_pos_iff.mpr (by rw [← hget]; exact List.getElem_mem hlt)
     simp; omega
 
-private theorem getD_set_self_false {l : List Bool} {r : Nat} : (l.set r false).getD r false = false := by
+theorem getD_set_self_false {l : List Bool} {r : Nat} : (l.set r false).getD r false = false := by
   rw [List.getD_eq_getElem?_getD, List.getElem?_set]
   simp only [if_true]; split <;> rfl
 
